@@ -34,6 +34,18 @@ type Case struct {
 	Path        []string `json:"path,omitempty"`         // artefact: the event path to replay
 }
 
+// firstSegmentFiles: the partial store files and cached output files of the segment [0, seg) in a C07 universe.
+func firstSegmentFiles(names []string, seg uint64) []string {
+	var out []string
+	for _, n := range names {
+		if (strings.Contains(n, ".partial") && strings.Contains(n, fmt.Sprintf("/%010d-%010d.", seg, 0))) ||
+			(strings.Contains(n, ".output") && strings.Contains(n, fmt.Sprintf("/%010d-%010d.", 0, seg))) {
+			out = append(out, n)
+		}
+	}
+	return out
+}
+
 func (c Case) String() string {
 	return fmt.Sprintf("%s seg=%d prod=%v [%d,%d) final=%d workers=%d cache=%s cap=%d", c.Prog, c.Seg, c.Prod, c.Start, c.Stop, c.Final, c.Workers, c.Cache, c.Cap) + map[bool]string{true: " partial-wins", false: ""}[c.PartialWins] + map[bool]string{true: " late-loader", false: ""}[c.LateLoader]
 }
@@ -77,6 +89,23 @@ func buildConfig(c Case) (*schedx.Config, *progs.Prog, error) {
 				continue
 			}
 			cfg.Initial[n] = content[n]
+		}
+		return cfg, p, nil
+	}
+	if strings.HasPrefix(c.Cache, "seg0mask:") {
+		// every subset of the files of the first segment (partial files of each store stage, cached outputs): the caches in
+		// which an upper stage has its partial while a lower stage has nothing (and the other way round)
+		var mask uint64
+		fmt.Sscanf(c.Cache, "seg0mask:%d", &mask)
+		names, content, err := c07.Universe(c07.Shape{Prog: c.Prog, Seg: c.Seg, Prod: c.Prod, Start: c.Start, Stop: c.Stop, Final: c.Final})
+		if err != nil {
+			return nil, nil, err
+		}
+		cfg.Initial = map[string][]byte{}
+		for i, n := range firstSegmentFiles(names, c.Seg) {
+			if mask&(1<<uint(i)) != 0 {
+				cfg.Initial[n] = content[n]
+			}
 		}
 		return cfg, p, nil
 	}
@@ -465,6 +494,19 @@ func Run(ctx *core.Ctx) int {
 	pc := []string{"partials-seg0", "partials"}
 	add("twostages-0-0-0", 2, true, 1, 4, 4, w12, pc)
 	add("storemap-0-0", 2, true, 1, 6, 6, w12, pc)
+	// every subset of the first segment's files of a two-store-stage graph (an upper stage's partial without the lower one's)
+	if ctx.Args["case"] == "" && ctx.Args["only"] == "" {
+		sh := c07.Shape{Prog: "twostages-0-0-0", Seg: 2, Prod: true, Start: 1, Stop: 4, Final: 4}
+		names, _, err := c07.Universe(sh)
+		if err != nil {
+			ctx.Violation(core.Failf("harness:universe", "%v", err), sh.Prog, 0)
+		}
+		k := len(firstSegmentFiles(names, sh.Seg))
+		for mask := 1; mask < 1<<uint(k)-1; mask++ {
+			add(sh.Prog, sh.Seg, true, sh.Start, sh.Stop, sh.Final, []int{2}, []string{fmt.Sprintf("seg0mask:%d", mask)})
+		}
+		ctx.Cov["first_segment_files_twostages"] = k
+	}
 	// holes in the snapshot sequence of a 3-segment grid (a later full snapshot present, an earlier one pruned), with and
 	// without the cached outputs
 	// every cached output present, no snapshot at all; and the same for a graph whose map starts below its store (the
